@@ -67,6 +67,9 @@ func (x *Explorer) execFrom(fr *frame, b *ssa.BasicBlock, i int) {
 			val := in.(ssa.Value)
 			x.setEnv(fr, val, x.T.mk(Term{Kind: KOpaque, Ref: val, N: x.next(), Type: val.Type()}))
 		case *ssa.MakeSlice:
+			if x.Opts.OnInstr != nil {
+				x.Opts.OnInstr(x, fr.fn, in, []*Term{x.eval(fr, v.Len), x.eval(fr, v.Cap)})
+			}
 			x.setEnv(fr, v, x.T.mk(Term{Kind: KMake, Ref: ssa.Value(v), N: x.next(), Args: []*Term{x.eval(fr, v.Len), x.eval(fr, v.Cap)}, Type: v.Type()}))
 		case *ssa.Defer:
 			ev := x.callEvent(fr, v, v.Common())
@@ -134,6 +137,9 @@ func (x *Explorer) execFrom(fr *frame, b *ssa.BasicBlock, i int) {
 			}
 			return
 		default:
+			if x.Opts.OnInstr != nil {
+				x.instrHook(fr, in)
+			}
 			if val, ok := in.(ssa.Value); ok {
 				t := x.pure(fr, in, false)
 				if t == nil {
@@ -297,4 +303,43 @@ func (x *Explorer) call(fr *frame, v *ssa.Call, cont func()) {
 		}
 		cont()
 	})
+}
+
+// instrHook reports bounds-relevant instructions to the OnInstr callback.
+func (x *Explorer) instrHook(fr *frame, in ssa.Instruction) {
+	switch v := in.(type) {
+	case *ssa.IndexAddr:
+		x.Opts.OnInstr(x, fr.fn, in, []*Term{x.eval(fr, v.X), x.eval(fr, v.Index)})
+	case *ssa.Index:
+		x.Opts.OnInstr(x, fr.fn, in, []*Term{x.eval(fr, v.X), x.eval(fr, v.Index)})
+	case *ssa.Lookup:
+		if _, isMap := v.X.Type().Underlying().(*types.Map); !isMap {
+			x.Opts.OnInstr(x, fr.fn, in, []*Term{x.eval(fr, v.X), x.eval(fr, v.Index)})
+		}
+	case *ssa.Slice:
+		none := x.T.None()
+		ops := []*Term{x.eval(fr, v.X), none, none, none}
+		if v.Low != nil {
+			ops[1] = x.eval(fr, v.Low)
+		}
+		if v.High != nil {
+			ops[2] = x.eval(fr, v.High)
+		}
+		if v.Max != nil {
+			ops[3] = x.eval(fr, v.Max)
+		}
+		x.Opts.OnInstr(x, fr.fn, in, ops)
+	case *ssa.TypeAssert:
+		if !v.CommaOk {
+			x.Opts.OnInstr(x, fr.fn, in, []*Term{x.eval(fr, v.X)})
+		}
+	case *ssa.SliceToArrayPointer:
+		x.Opts.OnInstr(x, fr.fn, in, []*Term{x.eval(fr, v.X)})
+	case *ssa.BinOp:
+		if v.Op == token.QUO || v.Op == token.REM {
+			if b, ok := v.Type().Underlying().(*types.Basic); ok && b.Info()&types.IsInteger != 0 {
+				x.Opts.OnInstr(x, fr.fn, in, []*Term{x.eval(fr, v.X), x.eval(fr, v.Y)})
+			}
+		}
+	}
 }
